@@ -1,5 +1,334 @@
-"""Cut synchronous segments out of the real async functions (filled in below)."""
+"""Cut synchronous segments out of the real (async) functions of /repo's current source.
+
+Kani 0.68 cannot compile any function that contains an `async |..|` closure and cannot finish
+the join/scatter layer (DESIGN.md §2).  But the protocol's decision points - every
+`if mac != key ^ .. { return Err }`, every index into a received vector - sit in the purely
+synchronous statement runs *between* two `.await`s.  This module regenerates, on every run and
+from the current source text, one plain `fn` per such run:
+
+    fn seg_<name>(<live-in variables>) -> <ret> { <verbatim source text of the statements> <epilogue> }
+
+The statements are located structurally (token-level statement tree of the function body; the
+anchor is "the innermost statement that contains all of these markers", the markers being the
+protocol's phase strings such as "output wire shares"), never by line number, so an edit inside
+the segment is picked up and an edit that restructures the function makes the segment
+unavailable (reported as inconclusive, never as a pass).  What a segment receives at its
+entry - the values that arrived in the preceding `.await` - is an arbitrary well-typed value in
+the harness: environment = nondeterministic stub.
+
+Optional textual substitutions (listed per segment and copied into the evidence) replace calls
+into cryptographic primitives by harness-defined environment functions.
+"""
+import hashlib
+import os
+import re
+
+# --------------------------------------------------------------------------- tokenizer
+
+OPEN = {"(": ")", "[": "]", "{": "}"}
+CLOSE = {v: k for k, v in OPEN.items()}
+
+
+def tokenize(src):
+    """-> list of (kind, text, start, end); comments/whitespace dropped."""
+    toks = []
+    i, n = 0, len(src)
+    while i < n:
+        c = src[i]
+        if c.isspace():
+            i += 1
+            continue
+        if src.startswith("//", i):
+            j = src.find("\n", i)
+            i = n if j < 0 else j
+            continue
+        if src.startswith("/*", i):
+            depth, j = 1, i + 2
+            while j < n and depth:
+                if src.startswith("/*", j):
+                    depth += 1
+                    j += 2
+                elif src.startswith("*/", j):
+                    depth -= 1
+                    j += 2
+                else:
+                    j += 1
+            i = j
+            continue
+        # raw strings / byte strings
+        m = re.match(r'b?r(#*)"', src[i:])
+        if m:
+            hashes = m.group(1)
+            end = src.find('"' + hashes, i + len(m.group(0)))
+            j = n if end < 0 else end + 1 + len(hashes)
+            toks.append(("str", src[i:j], i, j))
+            i = j
+            continue
+        if c == '"' or (c == "b" and i + 1 < n and src[i + 1] == '"'):
+            j = i + (2 if c == "b" else 1)
+            while j < n and src[j] != '"':
+                j += 2 if src[j] == "\\" else 1
+            j += 1
+            toks.append(("str", src[i:j], i, j))
+            i = j
+            continue
+        if c == "'":
+            # char literal or lifetime
+            m = re.match(r"'(\\.[^']*|[^'\\])'", src[i:])
+            if m:
+                j = i + len(m.group(0))
+                toks.append(("char", src[i:j], i, j))
+                i = j
+                continue
+            m = re.match(r"'[A-Za-z_][A-Za-z0-9_]*", src[i:])
+            if m:
+                j = i + len(m.group(0))
+                toks.append(("life", src[i:j], i, j))
+                i = j
+                continue
+        m = re.match(r"[A-Za-z_][A-Za-z0-9_]*", src[i:])
+        if m:
+            j = i + len(m.group(0))
+            toks.append(("id", src[i:j], i, j))
+            i = j
+            continue
+        m = re.match(r"[0-9][A-Za-z0-9_\.]*", src[i:])
+        if m:
+            txt = m.group(0)
+            # do not swallow `..` ranges or method calls on literals
+            k = txt.find("..")
+            if k >= 0:
+                txt = txt[:k]
+            if txt.endswith("."):
+                txt = txt[:-1]
+            j = i + len(txt)
+            toks.append(("num", src[i:j], i, j))
+            i = j
+            continue
+        toks.append(("p", c, i, i + 1))
+        i += 1
+    return toks
+
+
+# --------------------------------------------------------------------------- statement tree
+
+BLOCKLIKE = {"if", "for", "while", "loop", "match", "unsafe"}
+
+
+class Stmt:
+    def __init__(self, start, end, t0, t1):
+        self.start, self.end = start, end  # char offsets
+        self.t0, self.t1 = t0, t1  # token index range [t0, t1)
+        self.groups = []  # nested brace groups (each a list of Stmt)
+        self.parent_block = None
+        self.index = None
+
+
+def match_close(toks, i):
+    """toks[i] is an opening bracket; return index of its closing partner."""
+    depth = 0
+    j = i
+    while j < len(toks):
+        k, t = toks[j][0], toks[j][1]
+        if k == "p" and t in OPEN:
+            depth += 1
+        elif k == "p" and t in CLOSE:
+            depth -= 1
+            if depth == 0:
+                return j
+        j += 1
+    raise ValueError("unbalanced brackets")
+
+
+def split_block(toks, lo, hi):
+    """Statements of the brace group whose tokens are toks[lo:hi] (exclusive of the braces)."""
+    stmts = []
+    i = lo
+    while i < hi:
+        t0 = i
+        first = toks[i]
+        blocklike = (first[0] == "id" and first[1] in BLOCKLIKE) or (first[0] == "p" and first[1] == "{")
+        # labelled loops: 'label: for ...
+        if first[0] == "life" and i + 2 < hi and toks[i + 1][1] == ":":
+            blocklike = toks[i + 2][1] in BLOCKLIKE
+        j = i
+        end_tok = None
+        while j < hi:
+            k, t = toks[j][0], toks[j][1]
+            if k == "p" and t in OPEN:
+                c = match_close(toks, j)
+                if t == "{" and blocklike:
+                    nxt = toks[c + 1] if c + 1 < hi else None
+                    if nxt is not None and nxt[0] == "id" and nxt[1] == "else":
+                        j = c + 1
+                        continue
+                    # a block-like statement ends at its closing brace unless it is continued
+                    # as an expression (method call / ? / operator), which rustfmt'd statement
+                    # position code does not do except for `.await`/`?` chains on match/if
+                    if nxt is not None and nxt[0] == "p" and nxt[1] in (".", "?"):
+                        j = c + 1
+                        blocklike = False
+                        continue
+                    end_tok = c
+                    break
+                j = c + 1
+                continue
+            if k == "p" and t == ";":
+                end_tok = j
+                break
+            j += 1
+        if end_tok is None:
+            end_tok = hi - 1  # trailing expression
+        s = Stmt(toks[t0][2], toks[end_tok][3], t0, end_tok + 1)
+        stmts.append(s)
+        i = end_tok + 1
+    for idx, s in enumerate(stmts):
+        s.index = idx
+        s.parent_block = stmts
+        # nested brace groups
+        j = s.t0
+        while j < s.t1:
+            if toks[j][0] == "p" and toks[j][1] == "{":
+                c = match_close(toks, j)
+                s.groups.append(split_block(toks, j + 1, c))
+                j = c + 1
+            else:
+                j += 1
+    return stmts
+
+
+def find_fn(src, toks, name, impl_hint=None):
+    """Token range of the body of `fn name` (first match after impl_hint text if given)."""
+    start_char = 0
+    if impl_hint:
+        p = src.find(impl_hint)
+        if p < 0:
+            raise ValueError(f"impl hint {impl_hint!r} not found")
+        start_char = p
+    for i, t in enumerate(toks):
+        if t[0] == "id" and t[1] == "fn" and i + 1 < len(toks) and toks[i + 1][1] == name and t[2] >= start_char:
+            j = i + 2
+            while j < len(toks):
+                k, tx = toks[j][0], toks[j][1]
+                if k == "p" and tx in ("(", "["):
+                    j = match_close(toks, j) + 1
+                    continue
+                if k == "p" and tx == "{":
+                    return j, match_close(toks, j)
+                if k == "p" and tx == ";":
+                    break
+                j += 1
+    raise ValueError(f"fn {name} not found")
+
+
+def innermost_with(stmts, src, markers):
+    best = None
+    for s in stmts:
+        txt = src[s.start : s.end]
+        if all(m in txt for m in markers):
+            inner = None
+            for g in s.groups:
+                inner = inner or innermost_with(g, src, markers)
+            cand = inner or s
+            if best is not None and cand is not best:
+                # ambiguous at this level: prefer the first, but remember ambiguity
+                pass
+            best = best or cand
+    return best
+
+
+def cut(src, spec):
+    toks = tokenize(src)
+    lo, hi = find_fn(src, toks, spec["func"], spec.get("impl_hint"))
+    body = split_block(toks, lo + 1, hi)
+    if spec.get("after") is None:
+        block = body
+        first = 0
+        if spec.get("in_block_of"):
+            anchor = innermost_with(body, src, spec["in_block_of"])
+            if anchor is None:
+                raise ValueError(f"no statement contains {spec['in_block_of']}")
+            block = anchor.parent_block
+    else:
+        a = innermost_with(body, src, spec["after"])
+        if a is None:
+            raise ValueError(f"no statement contains all of {spec['after']}")
+        block = a.parent_block
+        first = a.index + 1 - (1 if spec.get("inclusive") else 0)
+    last = len(block)
+    if spec.get("until"):
+        u = None
+        for s in block[first:]:
+            if all(m in src[s.start : s.end] for m in spec["until"]):
+                u = s
+                break
+        if u is None:
+            raise ValueError(f"no later statement in the same block contains {spec['until']}")
+        last = u.index + (1 if spec.get("until_inclusive") else 0)
+    if first >= last:
+        raise ValueError("empty segment")
+    text = src[block[first].start : block[last - 1].end]
+    for s in block[first:last]:
+        if ".await" in src[s.start : s.end] and not spec.get("allow_await"):
+            raise ValueError("segment contains an .await (source was restructured)")
+    line0 = src.count("\n", 0, block[first].start) + 1
+    line1 = src.count("\n", 0, block[last - 1].end) + 1
+    return text, (line0, line1)
+
+
+# --------------------------------------------------------------------------- segment table
+
+from .segspecs import SEGMENTS  # noqa: E402
 
 
 def generate(scratch, hdir):
-    return {}
+    """Write verif_harness/segs_<module>.rs for every module; returns per-segment info."""
+    info = {}
+    out = {}
+    for spec in SEGMENTS:
+        name = spec["name"]
+        mod = spec["module"]
+        out.setdefault(mod, [])
+        sig = f"pub(crate) fn seg_{name}{spec.get('generics','')}({spec['params']}) -> {spec['ret']}"
+        try:
+            src = open(os.path.join(scratch, spec["file"])).read()
+            text, lines = cut(src, spec)
+            subs = []
+            for pat, rep in spec.get("subst", []):
+                new, n = re.subn(pat, rep, text)
+                if n == 0 and not spec.get("subst_optional"):
+                    raise ValueError(f"substitution {pat!r} did not apply (source changed)")
+                subs.append({"pattern": pat, "replacement": rep, "count": n})
+                text = new
+            body = (spec.get("prologue", "") + "\n" + text + "\n" + spec.get("epilogue", "")).strip("\n")
+            out[mod].append(f"// ---- segment {name}: {spec['file']} fn {spec['func']} lines {lines[0]}-{lines[1]} (cut on this run)\n#[allow(unused_variables, unused_mut, unreachable_code, clippy::all)]\n{sig} {{\n{body}\n}}\n")
+            info[name] = {
+                "ok": True,
+                "file": spec["file"],
+                "func": spec["func"],
+                "lines": list(lines),
+                "sha1": hashlib.sha1(text.encode()).hexdigest()[:16],
+                "substitutions": subs,
+                "live_in": spec["params"],
+            }
+        except Exception as e:  # noqa: BLE001
+            out[mod].append(f"// ---- segment {name}: UNAVAILABLE ({e})\n#[allow(unused_variables, clippy::all)]\n{sig} {{\n    panic!(\"segment {name} could not be cut from the current source\")\n}}\n")
+            info[name] = {"ok": False, "file": spec["file"], "func": spec["func"], "why": str(e)}
+    for mod, parts in out.items():
+        with open(os.path.join(hdir, f"segs_{mod}.rs"), "w") as f:
+            f.write("// GENERATED on every run by runner/segments.py from the current source text of the scratch copy.\n\n")
+            f.write("\n".join(parts))
+    return info
+
+
+if __name__ == "__main__":
+    import sys
+
+    src = open(sys.argv[1]).read()
+    for spec in SEGMENTS:
+        if spec["file"].endswith(os.path.basename(sys.argv[1])):
+            try:
+                t, l = cut(src, spec)
+                print(f"=== {spec['name']} lines {l}\n{t}\n")
+            except Exception as e:  # noqa: BLE001
+                print(f"=== {spec['name']}: FAILED {e}")
